@@ -34,6 +34,10 @@ USAGE_ONLY = [
     "import pytest\n\ndef test_a(alpha, beta):\n    pass\n\ndef test_b(alpha):\n    pass\n",
     "import pytest\n\n@pytest.mark.usefixtures(\"alpha\", 'beta')\nclass TestK:\n    def test_m(self, gamma):\n        pass\n",
     "import pytest\n\npytestmark = pytest.mark.usefixtures(\"db\")\n\n@pytest.mark.parametrize(\"alpha, beta\", [(1, 2)], indirect=True)\ndef test_p(alpha, beta):\n    pass\n",
+    # names that are underscore-delimited parts of one another inside one literal: each span is the name's own whole word
+    "import pytest\n\n@pytest.mark.parametrize(\"user_db, db\", [(1, 2)], indirect=True)\ndef test_a(user_db, db):\n    pass\n\n"
+    "@pytest.mark.parametrize(\"db_user,db\", [(1, 2)], indirect=True)\ndef test_b(db_user, db):\n    pass\n\n"
+    "@pytest.mark.usefixtures(\"a_db_b\", \"db\")\ndef test_c():\n    pass\n",
 ]
 
 
